@@ -109,7 +109,7 @@ def _run(ctx, ncases, rec):
       # friction rows of elliptic contacts store pos=margin=includemargin (C stores 0): documented departure W5 -> compare D/aref/type only for those
       A = np.array([[r[0], r[3], r[4]] for r in sorted(a, key=lambda r: (r[0], r[3], r[4]))])
       B = np.array([[r[0], r[3], r[4]] for r in sorted(b, key=lambda r: (r[0], r[3], r[4]))])
-      if A.shape != B.shape or not np.allclose(A, B, rtol=5e-3, atol=5e-3 * (1 + np.abs(B).max())):
+      if A.shape != B.shape or (B.size and not np.allclose(A, B, rtol=5e-3, atol=5e-3 * (1 + np.abs(B).max()))):
         ok = False
         acc.find(f"constraint rows (type, D, aref) differ from MuJoCo as multisets ({cone}, {jac})", "constraint.make_constraint", "rows-vs-mujoco", xml=xml, qpos=mjd.qpos.tolist(), qvel=mjd.qvel.tolist())
       # contact row addresses
